@@ -311,6 +311,43 @@ theorem C12_signed_is_sent (H : Bytes → Bytes) (o : Order) (p : Params) (k : N
       rw [hb] at h4
       exact ⟨d, s, o', h1, h4, by unfold digest at hd ⊢; rw [digestPreimage_congr h5]; exact hd⟩
 
+/-! ## PrepareOrder on a client database with history -/
+
+/-- Whatever is already on record: when `PrepareOrder` succeeds, the signature was made under the account key
+over the digest of the order THE CALLER PASSED (the object it then gives to `SubmitOrder`), the nonce was
+not on record before and is afterwards. -/
+theorem C12_prepare_order_signs_argument (H : Bytes → Bytes) (stored stored' : List Bytes) (o : Order)
+    (k : Nat) (σ : Sig) (h : prepareOrder H stored o k = (.ok σ, stored')) :
+    σ.signer = k ∧ digest H o = .ok σ.msg ∧ o.nonce ∉ stored ∧ stored' = o.nonce :: stored := by
+  unfold prepareOrder at h
+  cases hs : prepareOrderSig H o k with
+  | error e => simp [hs] at h
+  | ok τ =>
+    simp only [hs] at h
+    by_cases hc : o.nonce ∈ stored
+    · simp [hc] at h
+    · simp only [List.contains_iff_mem, hc, if_false, Prod.mk.injEq, Except.ok.injEq] at h
+      obtain ⟨h1, h2⟩ := h
+      subst h1
+      unfold prepareOrderSig at hs
+      cases hd : digest H o with
+      | error e => simp [hd, Except.map] at hs
+      | ok m =>
+        simp only [hd, Except.map] at hs
+        injection hs with hs
+        subst hs
+        exact ⟨rfl, rfl, hc, h2.symm⟩
+
+/-- A nonce that is on record — in whatever state the stored order is, e.g. failed — is refused, nothing is
+signed into the result and the database is unchanged (a retry never re-binds to the stored order). -/
+theorem C12_prepare_order_refuses_known_nonce (H : Bytes → Bytes) (stored : List Bytes) (o : Order) (k : Nat)
+    (hn : o.nonce ∈ stored) : ∃ e, prepareOrder H stored o k = (.error e, stored) := by
+  unfold prepareOrder
+  cases hs : prepareOrderSig H o k with
+  | error e => exact ⟨e, rfl⟩
+  | ok τ =>
+    exact ⟨.exists, by simp [hn]⟩
+
 /-! ## orders built by the RPC layer lie inside the guards -/
 
 /-- **Every order `ParseRPCOrder` builds is inside the domain of the theorems above**: within the Go types,
@@ -383,6 +420,9 @@ example : (digestPreimage exBid).toOption.isSome := by decide
 example : ∃ p, digestPreimage exBid = .ok p ∧ digestPreimage { exBid with sidecar := false } ≠ .ok p := by
   refine ⟨_, rfl, by decide⟩
 example : (prepareOrderSig id exBid 4).toOption.isSome := by decide
+example : (prepareOrder id [] exBid 4).1.toOption.isSome ∧ (prepareOrder id [] exBid 4).2 = [exBid.nonce] := by
+  decide
+example : (prepareOrder id [exBid.nonce] { exBid with fixedRate := 2500 } 4).1 = .error .exists := by decide
 example : (toWire exBid exParams).toOption.isSome := by decide
 /-- an unknown channel type is refused by SubmitOrder before anything is sent -/
 example : toWire { exBid with channelType := 9 } exParams = .error .channelType := by decide
